@@ -34,6 +34,16 @@ class LogixScenario:
             routes[()] = self.dev
         self.target = rt.RefTarget(rng, front=self.dev, routes=routes, policy=pol, log=self.b.log)
         self.b.set_target(self.target)
+        # Termination budget of one public call (socket operations, see FakeNet.op): finite, but sized for the largest legitimate
+        # call of this scenario.  The unit is BYTES, not messages: the delivery schedule may hand the client one byte per recv(), so
+        # a call legitimately needs up to one operation per byte it moves.  Bound: 64 requests, each moving the project's largest
+        # tag plus ~250 bytes of request/reply framing per fragment at the smallest payload the connection allows; x2 for sends.
+        # (A flat 60 000 was a false alarm: 40 whole-tag reads of 4 KiB arrays on a Micro800 - one message per tag, 500-byte
+        # connection, replies delivered a few bytes at a time - measured 71 038 operations and completed correctly.)
+        tags_ = list(self.prj.symbols) + [t for p_ in self.prj.programs.values() for t in p_["symbols"]]
+        biggest = max([len(getattr(t, "data", b"") or b"") for t in tags_] + [0])
+        fragments = biggest // max(1, self.conn_size - 150) + 4
+        self.b.net.call_budget = max(60000, 2 * 64 * (biggest + 250 * fragments))
         self.path = self.b.host if slot == 0 else f"{self.b.host}/{slot}"
         self.drv = pycomm3.LogixDriver(self.path, init_program_tags=init_program_tags)
         self.opened = None
